@@ -21,7 +21,7 @@ type vListAddr struct {
 func vC10(spec vSpec, maxSteps int, withSub bool) {
 	m := vNondetMap(spec)
 	k := vNondetString(1, 1, "ab")
-	var v interface{} = vNondetString(1, 1, "NM")
+	var v interface{} = vNondetString(1, 1, "xN") // may coincide with a value that is already there
 	var newVal interface{}
 	switch vChoose(4) {
 	case 0:
